@@ -18,6 +18,11 @@ convention) or as callables handed to register_function.  The FunctionDefinition
 (`resolvelib.expected_fd`) is derived from the generated signature alone, compared with what yaql built
 (`definition-table`), and it - not yaql's own table - is what the rules transcription resolves on; the Lean model of
 get_function_definition (`Yaql.Signature.define`) is run on the same signature + decorators and compared entry by entry.
+Host entry points: about half of the histories make most of their calls through `YaqlInterface` objects - ONE interface
+per context kept for the whole history (`yi.name(..)`, `yi.on(obj).name(..)`), interfaces derived from derived ones, one
+made with a receiver, and the `yaql_interface` injected into a host function that makes several calls in one
+invocation - the same name with and without receiver and on different receivers through one interface family, in both
+orders; the Lean model (`Yaql.Interface`: interfaces are values, `on` makes a new one) is told the same steps.
 Sharing: the same definition object / the same callable is registered in several contexts of a forest (plain,
 MultiContext, LinkedContext) with different exclusive flags, in both orders, before and after calls.
 The harness observes yaql through its public API only (constructors, register_function, delete_function,
@@ -34,7 +39,8 @@ import resolvegen
 import resolvelib as rl
 
 ID = 'C05'
-LEAN_MODULES = ['Yaql.Props.C05', 'Yaql.Props.C05Hist', 'Yaql.Props.C05Sig', 'Yaql.Props.C05SigGen']
+LEAN_MODULES = ['Yaql.Props.C05', 'Yaql.Props.C05Hist', 'Yaql.Props.C05Sig', 'Yaql.Props.C05SigGen',
+                'Yaql.Props.C05Iface']
 P = 'Yaql.Props.C05.'
 REQUIRED_THEOREMS = [P + n for n in (
     'resolve_eq_spec', 'unknown_iff', 'first_layer_wins', 'most_specific', 'no_matching_iff', 'kind_filter',
@@ -45,7 +51,10 @@ REQUIRED_THEOREMS = [P + n for n in (
     'Yaql.Props.C05Sig.' + n for n in (
         'define_sound', 'define_complete', 'defaults_complete', 'mandatory_stay_mandatory', 'define_perm',
         'define_perm_find', 'Ex.kwonly_elif_drops_default')] + [
-    'Yaql.Props.C05SigGen.stdlib_tables_follow_signatures', 'Yaql.Props.C05SigGen.stdlib_rows_nonempty']
+    'Yaql.Props.C05SigGen.stdlib_tables_follow_signatures', 'Yaql.Props.C05SigGen.stdlib_rows_nonempty'] + [
+    'Yaql.Props.C05Iface.' + n for n in (
+        'call_eq_spec', 'on_call', 'on_fresh', 'yis_stable', 'history_call_eq_spec', 'irun_erase_calls',
+        'call_insertion_invisible', 'inject_eq_caller', 'inject_step', 'Ex.stub_cache_wrong')]
 
 
 def generate():
@@ -156,12 +165,27 @@ def play(hspec):
     """runs the history on real contexts -> (History, [(step index, step, real outcome, rules' outcome)])"""
     h = rl.History(hspec['defs'])
     recs = []
-    for k, st in enumerate(hspec['steps']):
+    steps = hspec['steps']
+    k = 0
+    while k < len(steps):
+        st = steps[k]
+        if st[0] == 'call' and len(st) > 4 and st[4] == 'inj':
+            # consecutive calls from one context made inside ONE invocation of a function with an injected interface
+            group = [k]
+            while group[-1] + 1 < len(steps) and steps[group[-1] + 1][0] == 'call' and \
+                    steps[group[-1] + 1][1] == st[1] and steps[group[-1] + 1][4:] == ['inj']:
+                group.append(group[-1] + 1)
+            outs = h.call_group([(steps[j], rl.BuiltCall(steps[j][2])) for j in group])
+            for j, (real, exp) in zip(group, outs):
+                recs.append((j, steps[j], real, exp))
+            k = group[-1] + 1
+            continue
         if st[0] == 'call':
             real, exp = h.call(st, rl.BuiltCall(st[2]))
             recs.append((k, st, real, exp))
         else:
             h.do(st)
+        k += 1
     h.recheck_tables()
     return h, recs
 
@@ -273,6 +297,33 @@ def history_features(hspec, recs, hist):
         hist[k] = hist.get(k, 0) + n
     steps = hspec['steps']
     bump('hist:style:' + hspec.get('style', '?'))
+    # the host entry point of each call, and what one interface family (the context's YaqlInterface and the
+    # interfaces derived from it / the one injected into one host function invocation) has been used for before
+    fam_uses = {}
+    prev_inj = None
+    for k, s in enumerate(steps):
+        if s[0] != 'call':
+            prev_inj = None
+            continue
+        via = s[4] if len(s) > 4 else 'ctx'
+        bump('hist:call-via:' + via)
+        if via == 'ctx':
+            prev_inj = None
+            continue
+        if via == 'inj':
+            if prev_inj is None or prev_inj[0] != s[1]:
+                prev_inj = (s[1], k)
+            fkey = ('inj', s[1], prev_inj[1])
+        else:
+            prev_inj = None
+            fkey = ('yi', s[1])
+        use = (s[3], json.dumps(s[2].get('recv')))
+        seen = fam_uses.setdefault(fkey, [])
+        if any(n == use[0] and r != use[1] for n, r in seen):
+            bump('hist:interface-family:same-name-other-receiver-or-none-before')
+            if any(n == use[0] and (r == 'null') != (use[1] == 'null') for n, r in seen):
+                bump('hist:interface-family:same-name-with-and-without-receiver')
+        seen.append(use)
     bump('hist:contexts:%d' % sum(1 for s in steps if s[0] in NEW_CTX))
     for s in steps:
         bump('hist:step:' + s[0] + (':exclusive' if s[0] in ('reg', 'regc') and s[3] else ''))
@@ -455,7 +506,10 @@ def run(env, res):
                  'lambda / class function; decorators in shuffled order; hidden by name; bare classes; by index; python-style '
                  'names under the CamelCase convention) registered as prepared definitions or as callables; one definition '
                  'object / one callable is registered in several contexts with different exclusive flags in both orders '
-                 '(45 % of the histories favour it); distinct = distinct history')
+                 '(45 % of the histories favour it); half of the histories make most calls through YaqlInterface objects '
+                 '(one per context for the whole history, on(), derived from derived, made with a receiver, injected into '
+                 'a host function that makes several calls), the same name with / without receiver and on other '
+                 'receivers through one interface family; distinct = distinct history')
     if env['replay']:
         rp = json.load(open(env['replay']))
         if 'ospec' in rp['case']:       # a definition alone: one layer, an empty call
@@ -591,6 +645,12 @@ LEVEL_TEXT = ('Lean 4 theorems over a code-shaped model of runner.call/choose_ov
               'create_child_context operations resolves as the rules prescribe for the family the context chain denotes at '
               'that moment (resolveIn_eq_spec, via C17 layers), two histories that end in the same visible family give the '
               'same outcome (resolve_history_independent), and registrations / deletions outside the chain are invisible; '
+              'through the host entry point YaqlInterface (C05Iface, model Yaql.Interface): a call through an interface is '
+              'the call the rules prescribe for the interface\'s own context and receiver at that moment (call_eq_spec), '
+              'on() never rebinds an existing interface and calls leave no trace, so this holds after any history through '
+              'one interface family (history_call_eq_spec, call_insertion_invisible), the injected yaql_interface answers '
+              'as the calling context does (inject_eq_caller), and a per-name stub cache shared by the family does not '
+              '(Ex.stub_cache_wrong); '
               'for the step from a Python callable to the parameter table (C05Sig, model Yaql.Signature of set_parameter / '
               'get_function_definition): every entry has the key, position and default its argument has in the Python '
               'signature (define_sound, define_complete), so every argument with a Python default - positional or '
@@ -601,7 +661,7 @@ LEVEL_TEXT = ('Lean 4 theorems over a code-shaped model of runner.call/choose_ov
               'chains and on the compiled model (the real FunctionDefinition objects are what is serialised), comparing '
               'chosen overload / error class, evaluation log and bound argument vector, and by an independent Python '
               'transcription of the written rules.')
-LEVEL_NOTE = ('trusted: Lean kernel; hand-written models Yaql/Model/Types.lean, Resolve.lean, Context.lean, ResolveCtx.lean, '
+LEVEL_NOTE = ('trusted: Lean kernel; hand-written models Yaql/Model/Types.lean, Resolve.lean, Context.lean, ResolveCtx.lean, Interface.lean, '
               'Signature.lean; the transcription of the documented definition rules (expected_fd); '
               'the encoder of real objects; the differential harness, its record of the registrations and the rules '
               'transcription. All theorems are unconditional.')
